@@ -129,6 +129,16 @@ class Prov:
             for pr in p.proj:
                 if pr[0] == "index":
                     push_local(f, pr[1])
+            # tuple-field sensitivity: `_7.1...` where _7 is only ever assigned tuple aggregates follows operand 1 only
+            if p.proj and p.proj[0][0] == "field" and p.proj[0][2] == "tuple" and p.proj[0][1].isdigit():
+                ds = [x for x in self.defs(f).defs.get(p.local, ()) if x[0] != "mutarg"]
+                if ds and all(k == "stmt" and st.rv.k == "agg" and st.rv.j.get("tuple") and not st.lhs.proj for k, st in ds):
+                    n_ = int(p.proj[0][1])
+                    sl.locals.add((f.id, p.local))
+                    for k, st in ds:
+                        if n_ < len(st.rv.ops):
+                            push_operand(f, st.rv.ops[n_])
+                    return
             push_local(f, p.local)
 
         def push_operand(f, o):
